@@ -32,6 +32,7 @@ TABLE = {
             {"driver": "reuse", "required_clauses": ["callback-legitimacy", "stale-token", "dispatch-owed", "timer-fire"]},
             {"driver": "batch", "required_clauses": ["callback-legitimacy", "dispatch-owed"]},
             {"driver": "disable", "required_clauses": ["callback-legitimacy"]},
+            {"driver": "pairs", "required_clauses": ["callback-legitimacy", "dispatch-owed", "timer-fire"]},
             {"driver": "composite", "required_clauses": ["scripted-callback", "post-action"]},
             {"driver": "lifecycle", "required_clauses": ["scripted-callback"]},
         ],
@@ -60,6 +61,7 @@ TABLE = {
             {"driver": "timers", "required_clauses": ["wait-request"]},
             {"driver": "wait-real", "required_clauses": ["real-time-wait"], "shards": 1, "replayable": False},
             {"driver": "async-io", "required_clauses": ["idle-after-completion"]},
+            {"driver": "wakeup", "required_clauses": ["wakeup"], "opts": {"quick": {"preempt": 100}, "thorough": {"preempt": 100}}, "shards": 1},
         ],
     },
     "C06": {
@@ -74,6 +76,7 @@ TABLE = {
         "drivers": [
             {"driver": "disable", "required_clauses": ["callback-legitimacy", "dispatch-owed", "timer-fire", "oneshot"]},
             {"driver": "batch", "required_clauses": ["callback-legitimacy", "dispatch-owed"]},
+            {"driver": "pairs", "required_clauses": ["callback-legitimacy", "dispatch-owed", "timer-fire"]},
         ],
     },
     "C03": {
@@ -102,6 +105,7 @@ TABLE = {
             {"driver": "reentrancy", "required_clauses": ["callback-legitimacy", "idle-from-callback", "dispatch-owed", "executor-destroyed", "blocking-mode-restored", "timer-fire"]},
             {"driver": "crash-probe", "required_clauses": ["destructor-reentrancy"], "shards": 1, "replayable": False},
             {"driver": "idle", "required_clauses": ["idle-run"]},
+            {"driver": "idle-burst", "required_clauses": ["idle-burst"], "shards": 1, "replayable": False},
             {"driver": "lifecycle", "required_clauses": ["lifecycle"]},
         ],
     },
@@ -116,6 +120,7 @@ TABLE = {
         "level": "model_checking", "rule": WORLD_RULE, "assumptions": SEQ_ASSUME + ["Idle::cancel of the idle that is currently running is not generated (excluded: it double-borrows by construction)"],
         "drivers": [
             {"driver": "idle", "required_clauses": ["idle-run", "idles", "scripted-callback"]},
+            {"driver": "idle-burst", "required_clauses": ["idle-burst"], "shards": 1, "replayable": False},
         ],
     },
     "C14": {
@@ -204,13 +209,13 @@ TABLE = {
         "level": "exploration",
         "rule": ("every (generation, sub-id) pair (2^32 of them) for each boundary slot id is pushed through the real "
                  "fields->key->fields conversions, generation bump and reserved-key test; a dense stride of slot ids with all "
-                 "boundary/single-bit (generation, sub-id) pairs; token factories run to exhaustion. non-trivial = triples with "
+                 "boundary/single-bit (generation, sub-id) pairs; token factories run to exhaustion; the crate's same-source relation over all pairs of boundary keys in both receiver orders. non-trivial = triples with "
                  "generation != 0 and sub-id != 0 (field overlap would show) plus every factory token; all are distinct inputs"),
         "explanation": "exhaustive enumeration of the finite key domain for boundary ids; dense enumeration elsewhere",
         "assumptions": ["64-bit target (16-bit generation and sub-id fields)",
                         "accessors in calloop::verif are thin wrappers over the real conversions (H6, reviewed)"],
         "drivers": [
-            {"driver": "keys", "required_clauses": ["roundtrip", "bump", "dense-ids", "factory"], "replayable": False},
+            {"driver": "keys", "required_clauses": ["roundtrip", "bump", "dense-ids", "factory", "belongs"], "replayable": False},
         ],
     },
 }
